@@ -490,6 +490,41 @@ def r5_own_tables(ctx, fam):
                     where(f))
 
 
+def r7_no_user_data(ctx, fam):
+    """what the instrumentation reports is made of identifiers, names,
+    counters and timestamps it produced itself.  It never reads the user
+    sessions (application-owned, possibly not serialisable objects): handing
+    them to an emit on the admin namespace - which is issued BEFORE the
+    wrappers delegate - makes the application client's processing fail with
+    the encoder's TypeError whenever an admin is connected (and shows one
+    client's session to the admin)."""
+    m = ctx.model
+    A = ADMIN[fam]
+    c = m.cls(A)
+    n = 0
+    for f in m.funcs:
+        owner = f
+        while owner.cls is None and owner.parent is not None:
+            owner = owner.parent
+        if owner.cls is not c:
+            continue
+        n += 1
+        bad = None
+        for node in walk_own(f.node):
+            if isinstance(node, ast.Attribute) and node.attr in (
+                    'session', 'get_session', 'save_session') and \
+                    U(node.value) != 'self':
+                bad = node
+        ctx.check(bad is None, '%s.%s' % (A, owner.name), 'does not touch '
+                  'user sessions', key='reads-session', reason='the '
+                  'instrumentation reads %s: application-owned objects end '
+                  'up in an admin emit that precedes the delegated work'
+                  % (U(bad)[:50] if bad is not None else ''),
+                  where=where(f, bad) if bad is not None else where(f))
+    if n < 10:
+        raise AnalysisError(A + ': only %d functions scanned' % n)
+
+
 def r6_instrument_forwarding(ctx, fam):
     """Server.instrument hands each of its parameters (auth, mode, read_only,
     ...) to the same-named parameter of the instrumentation: a dropped
@@ -522,6 +557,10 @@ def r6_instrument_forwarding(ctx, fam):
 
 
 def run(ctx):
+    ctx.rule('C18.R7', 'the instrumentation never reads user sessions',
+             floor=20)
+    for fam in SA:
+        r7_no_user_data(ctx, fam)
     ctx.rule('C18.R6', 'instrument() forwards its configuration (auth, mode, '
              'read_only, ...) parameter by parameter', floor=6)
     for fam in SA:
